@@ -445,9 +445,18 @@ def frozen_case(mon, rng, c):
     m = wd.market()
     row = price_row(wd, prices)
     prices = {nm: F(row[nm]) for nm in wd.names}
-    fz = Fz([m], row, None, {t: Decimal(10) ** 15 for t in wd.w.tokens}, wd.index[0])
+    sib = None
+    if rng.random() < 0.25:
+        # Aave on a second chain under the same account (same token names, other indices and risk rows), see vmon/decoy.py
+        from ..decoy import AaveSibling
+
+        sib = AaveSibling(rng, wd.w)
+        mon.cls("sibling/aave")
+    fz = Fz([m] + ([sib.m] if sib else []), row, None, {t: Decimal(10) ** 15 for t in wd.w.tokens}, wd.index[0])
     ctx = {"case": c, "index_mode": index_mode, "tokens": wd.names, "supply": [(a, str(b), cc) for a, b, cc in sup],
            "borrow": [(a, str(b)) for a, b in bor]}
+    if sib is not None:
+        sib.poke(rng)
     for nm, a, coll in sup:
         r = Dr.call_op(m.supply, wd.tok[nm], a, coll)
         if not r.ok:
@@ -463,6 +472,9 @@ def frozen_case(mon, rng, c):
     monitored_update(mon, "frozen", wd, fz, m, 0, prices, ctx)
     for bar in range(1, nbars):
         st = observe(m)
+        if sib is not None and rng.random() < 0.6:
+            sib.poke(rng)
+            mon.hit("sibling-poke")
         if index_mode == "erode":
             # the very same price row on every bar: only the borrow indices move the health factor
             fz.set_bar(wd.index[bar], row)
